@@ -5,7 +5,7 @@
    FULL STATEMENT OF THE PROPERTY (REFUTED on the current tree, see zix_normal_refuted_A..D):
      forall s, peq (zix_normal s) (std_normal s) /\ is_normal_form (zix_normal s) = true.       *)
 From Coq Require Import ZArith List Bool.
-From Zix Require Import PathNormSpec PathNormModel PathNormProofsSpec PathNormProofsModel PathNormProofsDD PathNormProofsTail PathNormProofsPlain PathNormProofs.
+From Zix Require Import PathNormSpec PathNormModel PathNormProofsSpec PathNormProofsModel PathNormProofsDD PathNormProofsTail PathNormProofsPlain PathNormProofsTotal PathNormProofs.
 Import ListNotations.
 Local Open Scope Z_scope.
 
@@ -27,6 +27,12 @@ Print Assumptions normal_form_fixed_point.
 (* hypotheses are satisfiable on a non-trivial string: "../a/b/" is a normal form *)
 Example normal_form_example : is_normal_form [DOT; DOT; SEP; 97; SEP; 98; SEP] = true.
 Proof. reflexivity. Qed.
+
+(* ---- the model is total: the fuel (len+2)^2 of the dot-dot pass and len+1 of the other loops
+        is never exhausted, for EVERY input string, the four defective classes included -------- *)
+Theorem zix_normal_terminates : forall s, zlen s + 2 < 2 ^ 64 -> zix_normal_opt s <> None.
+Proof. exact zix_normal_total. Qed.
+Print Assumptions zix_normal_terminates.
 
 (* ---- refutations: one witness in each class (and in no other class) ------------------ *)
 
